@@ -17,6 +17,7 @@ pub struct IndexCfg {
   pub max_savepoints: Option<usize>,
   pub integration_test: bool,
   pub height_limit: Option<u32>,
+  pub bitcoin_rpc_limit: Option<u32>,
 }
 
 impl IndexCfg {
@@ -32,6 +33,7 @@ impl IndexCfg {
       max_savepoints: None,
       integration_test: false,
       height_limit: None,
+      bitcoin_rpc_limit: None,
     }
   }
 
@@ -112,6 +114,9 @@ impl IndexCfg {
     }
     if let Some(c) = self.height_limit {
       args.extend(["--height-limit".into(), c.to_string()]);
+    }
+    if let Some(c) = self.bitcoin_rpc_limit {
+      args.extend(["--bitcoin-rpc-limit".into(), c.to_string()]);
     }
     args
   }
